@@ -359,10 +359,11 @@ impl CompressorClient {
             .map_err(MonorailError::from)
     }
     pub(crate) async fn shutdown(&self) -> Result<(), MonorailError> {
-        self.req_tx
-            .send(CompressRequest::Shutdown)
-            .await
-            .map_err(MonorailError::from)
+        // Every client of a compressor thread sends Shutdown, and the thread exits
+        // on the first one it receives. A closed channel therefore means the thread
+        // has already shut down, which is the state being asked for.
+        let _ = self.req_tx.send(CompressRequest::Shutdown).await;
+        Ok(())
     }
 }
 
